@@ -17,7 +17,8 @@ RULE = (
     "step function: for two-octet prefix (a,b) [= one of the 2^16 register states] and next octet c, "
     "fresh object, update(a), update(b), update(c) return values + checksum + is_good, and "
     "compute_checksum(abc,0,3), all compared with the bit-serial model; distinct = distinct (a,b,c) (by construction). "
-    "random part: byte strings 0..300 with random windows, correct / bit-flipped / swapped trailers; distinct = distinct string digest. "
+    "random part: byte strings 0..300 with random windows, correct / bit-flipped / swapped trailers; the same window held in a bytearray, memoryview, memoryview slice at a non-zero offset, array, tuple; "
+    "pairs of different equal-length strings with the same CRC-32 / Adler-32 / multiset computed back to back; distinct = distinct string digest. "
     "A case is non-trivial when at least one real call was compared with the model (every case is)."
 )
 ASSUMPTIONS = [
@@ -252,6 +253,36 @@ def run_random_case(F, data: bytes, rng, ctx, case) -> None:
         got = F.compute_checksum(data, 0, len(data))
         if got != fcs16.fcs(data):
             ctx.violation("C03:compute_checksum:depends-on-earlier-calls", f"compute_checksum of the whole string after a failed call = {got!r}, model {fcs16.fcs(data):#06x}", case)
+    # the same octets in every container a caller may hold them in (a zero-copy slice of a receive buffer, ...)
+    if data:
+        import array
+
+        start = rng.randint(0, len(data) - 1)
+        length = rng.randint(0, len(data) - start)
+        want = fcs16.fcs(data[start : start + length])
+        pad_l, pad_r = rng.randint(1, 9), rng.randint(0, 4)
+        backing = bytearray(rng.randbytes(pad_l) + data + rng.randbytes(pad_r))
+        for kind, container in (("bytearray", bytearray(data)), ("memoryview", memoryview(data)), ("memoryview_slice_at_offset", memoryview(backing)[pad_l : pad_l + len(data)]),
+                                ("array_B", array.array("B", data)), ("tuple", tuple(data))):
+            try:
+                got = F.compute_checksum(container, start, length)
+            except Exception:
+                ctx.count("container_calls_that_raised(not judged)")
+                continue
+            ctx.count("windows_compared_in_other_containers")
+            if got != want:
+                ctx.violation(f"C03:compute_checksum:container:{kind}", f"compute_checksum({kind} of {len(data)} octets, {start}, {length}) = {got!r}, model {want:#06x} (bytes give {F.compute_checksum(data, start, length)!r})", dict(case, start=start, length=length, container=kind))
+    # pairs of different windows that a 32-bit digest of the input cannot tell apart, computed one after the other
+    if len(data) >= 3:
+        from vf.gen import collide
+
+        for kind, other in collide.twins(data, rng):
+            first = F.compute_checksum(data, 0, len(data))
+            second = F.compute_checksum(other, 0, len(other))
+            again = F.compute_checksum(data, 0, len(data))
+            ctx.count(f"digest_colliding_pairs_{kind}")
+            if first != fcs16.fcs(data) or second != fcs16.fcs(other) or again != first:
+                ctx.violation(f"C03:compute_checksum:digest-colliding-pair:{kind}", f"{data.hex()[:60]} then {other.hex()[:60]} (same length and {kind}): {first!r}, {second!r}, {again!r}; model {fcs16.fcs(data):#06x}, {fcs16.fcs(other):#06x}", dict(case, other=other))
     # trailers: correct, one bit flipped, octets swapped
     good_tr = fcs16.trailer(data)
     variants = [("correct", good_tr)]
@@ -300,6 +331,11 @@ def replay(case: dict, ctx) -> None:
         import random
 
         run_random_case(F, case["data"], random.Random(0), ctx, case)
+        if "other" in case:
+            a, b = case["data"], case["other"]
+            got = (F.compute_checksum(a, 0, len(a)), F.compute_checksum(b, 0, len(b)))
+            if got != (fcs16.fcs(a), fcs16.fcs(b)):
+                ctx.violation("C03:compute_checksum:digest-colliding-pair:replay", f"{got!r} vs model {(fcs16.fcs(a), fcs16.fcs(b))!r}", case)
         if "msg" in case:
             o = F()
             for b in case["msg"]:
